@@ -92,11 +92,15 @@ def run_item(item):
         # equal expressions must simplify identically whether equal sub-trees are one shared object or
         # distinct objects (the canonical form is a function of the structure)
         ri = X.expr_simp(canon.deser_expr_interned(item['e'], regs))
-        res['interned_equal'] = canon.ser_expr(ri) == canon.ser_expr(r)
+        res['interned_equal'] = (str(ri) == str(r) and ri == r) if item.get('lax') else canon.ser_expr(ri) == canon.ser_expr(r)
         var = []
         for v in item.get('variants', []):
             rv = X.expr_simp(build(v))
-            var.append(canon.ser_expr(rv) == canon.ser_expr(r))
+            if item.get('lax'):
+                # operands that are equal for the library but not structurally: text and library equality decide
+                var.append(str(rv) == str(r) and rv == r)
+            else:
+                var.append(canon.ser_expr(rv) == canon.ser_expr(r))
         res['variants_equal'] = var
         return res
     if k == 'lift':
